@@ -186,14 +186,17 @@ CLAIMED['C12'] = {
             'delimiter triples), any two admissible triples, any two runs of CR/LF after the terminators and any two chunkings of the '
             'input, the reader model returns the same version, the same segments (ISA16 apart) and the same errors at the same segment '
             'positions, and completes; with C12_segment_delims_irrelevant and C12_line_breaks_irrelevant. Hypothesis: the control '
-            'elements the reader interprets carry one component. The rest of the pipeline (walker, element validation, '
-            'acknowledgement) consumes parsed segments; its delimiter independence is not proved but compared on the implementation: '
-            'corpus and generated documents re-encoded with 8 triples x 5 line conventions, verdict, every handler call and the '
-            'acknowledgement text compared.',
+            'elements the reader interprets carry one component. Downstream layers consume parsed segments: '
+            'C12_validation_delims_irrelevant (segment validation: results, codes, texts and quoted values) and '
+            'C12_walker_delims_irrelevant (node found, loop events, counters, errors) hold for any two delimiter triples under a '
+            'computable hypothesis (no composite value where the map expects a simple element), shown necessary by '
+            'C12_validation_needs_simple_positions; the acknowledgement bodies are functions of the error tree (C05). The end-to-end '
+            'composition is not a theorem but compared on the implementation: corpus and generated documents re-encoded with 8 '
+            'triples x 5 line conventions, verdict, every handler call and the acknowledgement text compared.',
     'design_ref': 'DESIGN.md §6 C12, §11',
-    'note': 'Partial: theorem covers the reader only. Trusted: Coq kernel, hand transcription of reader/segment/raw file (tied by '
-            'reader correspondence), Spec/C12_spec.v, extraction.',
-    'technique': 'Coq proof (re-uses the C01 chunk-independence and round-trip theorems; induction over the body with the reader state generalised) + differential re-encoding runs',
+    'note': 'Partial: theorems cover reader, segment validation and walker separately. Trusted: Coq kernel, hand transcriptions '
+            '(tied by reader / segvalid / walk correspondence), Spec/C12_spec.v, Spec/C12b_spec.v, extraction.',
+    'technique': 'Coq proof (re-uses the C01 chunk-independence and round-trip theorems; induction over the body with the reader state generalised; relational simulation over the walker monad) + differential re-encoding runs',
 }
 CLAIMED['C08'] = {
     'text': 'Theorems (Props/C08.v): the XML text written by the model of x12xml_simple/XMLWriter for ANY sequence of located segments '
@@ -211,19 +214,40 @@ CLAIMED['C08'] = {
     'technique': 'Coq refinement proof (writer monad vs abstract XML events) + per-map vm_compute facts + extracted-model correspondence + round-trip oracle',
 }
 CLAIMED['C07'] = {
-    'text': 'PARTIAL. Theorem C07_driver_total: for every environment whose maps satisfy the computable predicate map_ok (walker, '
-            'validator and envelope-shape well-formedness) and EVERY text with plain delimiters, the model of x12n_document with the '
-            'sinks off returns a verdict or raises X12Error / EngineError, nothing else; C07_shipped_environment_ok proves, by '
-            'evaluation over the maps regenerated on each run, that the shipped configuration is such an environment (three maps are '
-            'outside and named); built from C07_walker_total (the walker raises nothing for any segment), C07_validation_total '
-            '(segment validation raises nothing), the error-handler cursor invariant and the reader totality theorem. The premise '
-            'is shown necessary (C07_letter_terminator_raises, a recorded finding). Not proved: totality of the HTML / XML / '
-            'acknowledgement sinks and of the context reader — checked on the implementation over generated documents, structural '
-            'mutations and arbitrary strings under all 8 sink subsets, with the whole-pipeline model compared on every run.',
+    'text': 'PARTIAL (one premise). Theorem C07_pipeline_total: for every environment whose maps satisfy the computable predicates '
+            'map_ok (walker, validator and envelope-shape well-formedness) and sinks_ok, EVERY subset of the acknowledgement / HTML / '
+            'XML sinks and EVERY text with plain delimiters, the model of x12n_document returns a verdict or raises X12Error / '
+            'EngineError, nothing else; C07_shipped_environment_ok / C07_shipped_sinks_ok prove, by evaluation over the maps '
+            'regenerated on each run, that the shipped configuration is such an environment (three maps are outside map_ok and '
+            'named). Built from C07_driver_total (sinks off), C07_walker_total, C07_validation_total, the error-handler cursor and '
+            'heap invariants, the error-iterator fuel bound and the reader totality theorem. The premise plain_delims is shown '
+            'necessary (C07_letter_terminator_raises, a recorded finding). Not proved: totality of the context reader — checked on '
+            'the implementation against the CtxReader model. The check runs generated documents, structural mutations and arbitrary '
+            'strings under all 8 sink subsets, with the whole-pipeline model compared on every run.',
     'design_ref': 'DESIGN.md §6 C07, §11',
-    'note': 'Trusted: Coq kernel (vm_compute for per-map facts); hand transcriptions Driver/Walker/Element/Errh/Reader/Raw/Pipeline; '
-            'tools/gen/maps.py; extraction. Sinks and context reader: oracle + correspondence only.',
-    'technique': 'Coq proof (Hoare-style safety over the driver monad with an error-handler cursor invariant; per-map facts by vm_compute) + extracted-model correspondence + oracle',
+    'note': 'Trusted: Coq kernel (vm_compute for per-map facts); hand transcriptions Driver/Walker/Element/Errh/Reader/Raw/Pipeline/'
+            'ErrIter/Html/XmlOut/Ack997/Ack999; tools/gen/maps.py; extraction. Context reader: oracle + correspondence only.',
+    'technique': 'Coq proof (Hoare-style safety over the driver and pipeline monads with error-handler cursor and heap invariants; per-map facts by vm_compute) + extracted-model correspondence + oracle',
+}
+CLAIMED['C05'] = {
+    'text': 'PARTIAL. Theorems (Props/C05.v) over the models of err_handler, error_997 / error_999 and the driver\'s verdict: for EVERY '
+            'error tree and clock the acknowledgement written is envelope + one numbered set per group node whose body is a stated '
+            'function of the tree — AK1, per set AK2, AK3/AK4 (IK3/IK4) items in tree order with segment position, element position, '
+            'code and offending value, AK5 (IK5), AK9 (C05_997_content, C05_999_content); it names every group and set in order with '
+            'their control numbers, and every tree the handler API can build is fully visited (C05_names_every_group_and_set, '
+            'C05_tree_is_visited); a set is accepted exactly when it holds no counted error (C05_set_accepted_iff_no_counted_error); '
+            'AK902-904 are declared / received / received minus failed sets (C05_group_totals, C05_group_totals_origin); the verdict '
+            'is True exactly when no validation failed and the tree counts no error (C05_verdict_definition, '
+            'C05_error_free_all_accepted). "Reported at any level <-> accepted" is false of the code in three corners, proved as '
+            'C05_*_is_false and recorded as findings. That the tree holds exactly the errors the validator reported, and the '
+            'addressing of the envelope, are decided by the check: single / multi-fault, multi-set / group / interchange documents '
+            '(4010, 5010), implementation acknowledgement parsed and compared with an independent structural recount, plus the '
+            'whole-pipeline model correspondence.',
+    'design_ref': 'DESIGN.md §6 C05, §11',
+    'note': 'Trusted: Coq kernel; hand transcriptions Errh/Ack997/Ack999/Driver/Pipeline (tied by errh, walk and pipeline '
+            'correspondence); Spec/C05_spec.v, C05_spec999.v; extraction. Known findings printed by the check: errors on envelope '
+            'lines not counted; unlocated set counted accepted.',
+    'technique': 'Coq proof (writer-monad "yields" calculus over the visitor run, tree invariant over the handler API) + extracted-model correspondence + independent acknowledgement recount',
 }
 CLAIMED['C06'] = {
     'text': 'PARTIAL. Theorems C06_997_envelope_recount / C06_999_envelope_recount: for EVERY error-handler state, whenever the visitor '
